@@ -1,4 +1,5 @@
 """C16 - collect()/first() give the right results at the right time and abort the rest"""
+import inspect
 import random
 
 from .. import bootstrap  # noqa: F401
@@ -245,7 +246,10 @@ def build_for(case):
                 checker.finished = len(arena.sess.events)
                 arena.log('consumer', 'left')
                 for act in acts:
-                    if not isinstance(act, Task):
+                    # (only what never got to run is discarded here; a started activity is the
+                    # library's to stop - closing it from here would hide that it was not)
+                    if not isinstance(act, Task) \
+                            and inspect.getcoroutinestate(act) == inspect.CORO_CREATED:
                         act.close()
         return [('consumer', consumer)], (), checker
     return build
